@@ -284,6 +284,21 @@ def run_map(case):
         want_out = "%s_%s.out" % (items[i] if case["items"] == "str" else (items[i][0] if case["items"] == "tuple" else items[i]["x"]), "E" if case["extra"] else "y")
         if t.outputs != [want_out]:
             res.violation("map-args", "target %d got outputs %s; expected %s" % (i, t.outputs, [want_out]))
+    # one template OBJECT used in two workflows with different working directories (a shared template constant, a
+    # memoised template function): each target lives in the directory of the workflow it was added to
+    shared = tpl("shared")
+    wf_a = inproc.Workflow(working_dir="/tmp/wa")
+    wf_b = inproc.Workflow(working_dir="/tmp/wb")
+    try:
+        ta = wf_a.target_from_template("s", shared)
+        tb = wf_b.target_from_template("s", shared)
+        tm = wf_b.map(lambda x: shared, ["only"], name="m")[0]
+        got_ = (ta.flattened_outputs(), tb.flattened_outputs(), tm.flattened_outputs())
+        res.mon("shared_template_checked")
+        if got_ != (["/tmp/wa/shared_y.out"], ["/tmp/wb/shared_y.out"], ["/tmp/wb/shared_y.out"]):
+            res.violation("template-shared-state", "one template object added to workflows in /tmp/wa and /tmp/wb gives outputs %s" % (got_,))
+    except Exception as e:  # noqa: BLE001
+        res.violation("map-crash", "sharing a template object between two workflows raised %r" % (e,))
     res.sig = ("map", case["naming"], case["items"], n, case["extra"], case.get("iterable", "list"))
     res.nontrivial = n >= 2
     return res
